@@ -6,6 +6,8 @@ all letter sequences to depth 2 (quick) / 3 (thorough) from a generic state, eve
 documented scheme definitions (AlgoType docstrings) written as dense formulas."""
 from __future__ import annotations
 
+import contextlib
+import io
 import itertools
 
 import numpy as np
@@ -73,6 +75,10 @@ def cases(tier, seed):
                 for con in CONSTRAINTS:
                     for load in ("none", "constant"):
                         out.append({"kind": "newton", "system": system, "constraint": con, "load": load, "l1": i})
+    # alpha = 0 of the parabolic scheme (documented as Forward Euler)
+    for con in CONSTRAINTS:
+        for load in ("none", "constant"):
+            out.append({"kind": "forward_euler", "constraint": con, "load": load})
     # the Newton path of a REAL nonlinear simulation (HyperElastic, Saint-Venant-Kirchhoff) in its linear limit (amplitudes 1e-7):
     # update relations, and K_lin u_t + C v_t + M a_t = F with K_lin, M of the linear elastic simulation of the same material
     for i, L in enumerate(letters("elastic")):
@@ -322,6 +328,40 @@ def do_step(simu, L, state):
 
 def run_case(case):
     return globals()["_run_" + case["kind"]](case)
+
+
+def _run_forward_euler(case):
+    """alpha = 0 of the parabolic scheme, documented as Forward Euler (docstring of Solver_Set_Parabolic_Algorithm: 'alpha = 0 -> Forward Euler'):
+    u_{n+1} = u_n + dt v_n, and C v_{n+1} + K u_{n+1} = F on the free dofs."""
+    simu = make_simu("thermal", "none")
+    apply_bc(simu, "thermal", case["constraint"], case["load"])
+    pt = simu.problemType
+    K, C, M, F = (np.asarray(A.todense()) for A in simu.Get_K_C_M_F())
+    n = K.shape[0]
+    un, vn, _ = generic_state(n)
+    dt = 0.01
+    key = dict(kind="forward_euler", algo="parabolic", params="alpha=0", constraint=case["constraint"], load=case["load"])
+    simu.Solver_Set_Parabolic_Algorithm(dt, 0.0)
+    simu._Set_solutions(pt, un.copy(), vn.copy(), np.zeros(n))
+    try:
+        with contextlib.redirect_stdout(io.StringIO()):
+            simu.Solve()
+    except Exception as err:
+        return {"violations": [viol("step_raises", f"parabolic scheme with alpha = 0 (documented as Forward Euler): Solve raised {type(err).__name__}: {str(err)[:120]}", **key)],
+                "fingerprint": fp("fe", case), "nontrivial": True, "transitions": 1, "outcome": "violation"}
+    u1 = np.array(simu._Get_u_n(pt), dtype=float)
+    v1 = np.array(simu._Get_v_n(pt), dtype=float)
+    known = np.asarray(simu.Bc_dofs_Dirichlet(pt), dtype=int)
+    free = np.setdiff1d(np.arange(n), known)
+    v = []
+    e1 = _rel(u1[free], (un + dt * vn)[free])
+    if e1 > 1e-12:
+        v.append(viol("update_u", f"parabolic(alpha=0): u_(n+1) differs from u_n + dt v_n by {e1:.3e} on the free dofs", **key))
+    r = (C @ v1 + K @ u1 - F.ravel())[free]
+    e2 = np.abs(r).max() / max(np.abs(C @ v1).max(), np.abs(K @ u1).max(), 1e-300)
+    if e2 > 1e-10:
+        v.append(viol("equation", f"parabolic(alpha=0): |C v + K u - F| on the free dofs = {e2:.3e} (relative)", **key))
+    return {"violations": v, "fingerprint": fp("fe", case, u1, v1), "nontrivial": True, "transitions": 1, "outcome": "ok" if not v else "violation"}
 
 
 def _run_hyper(case):
